@@ -7,8 +7,8 @@ silent (see notes/C03.md) the spec yields a *set* of acceptable renderings inste
 import itertools
 import random
 
-from .common import Clause, run_parallel
-from .c03_tags import parse_markup, MarkupError
+from .common import Clause
+from .c03_tags import parse_markup, MarkupError, run_parallel_sorted
 
 # one "mention" = one way of writing an attribute on an element
 #   text: what is written; name: attribute it denotes; value: None = no value written, '' = explicitly empty
@@ -265,25 +265,20 @@ def all_option_sets():
 
 
 def covering_option_sets(rng, rows):
-    """seeded rows; every value of every axis occurs, first row = defaults"""
+    """seeded rows: defaults, every non-default value of every axis alone, then random multi-axis rows"""
     res = [{}]
-    width = max(len(v) for _, v in OPTION_AXES)
-    for i in range(width):                       # each value of each axis at least once, others default
-        for k, vals in OPTION_AXES:
-            if i < len(vals) and vals[i] is not None:
-                res.append({k: vals[i]})
+    for k, vals in OPTION_AXES:
+        for v in vals[1:]:
+            res.append({k: v})
     while len(res) < rows:
         o = {}
         for k, vals in OPTION_AXES:
             v = rng.choice(vals)
             if v is not None:
                 o[k] = v
-        res.append(o)
-    uniq = []
-    for o in res:
-        if o not in uniq:
-            uniq.append(o)
-    return uniq[:max(rows, 1)]
+        if o not in res:
+            res.append(o)
+    return res[:max(rows, 1)]
 
 
 def seq_cases(kinds, maxlen, syntaxes, option_sets, full_upto=None, per_seq=8):
@@ -332,19 +327,19 @@ def multi_cases_random(rng, n, kinds, option_sets):
 def run(tier, seed):
     rng = random.Random(seed)
     quick = tier == 'quick'
-    cover = covering_option_sets(rng, 14 if quick else 40)
+    cover = covering_option_sets(rng, 16 if quick else 40)
     allsets = list(all_option_sets())
 
     c1 = Clause('attr-sequences-exhaustive', 'B',
                 'all sequences of attribute mentions from %r on one element `p` (every third case written self-closing `p.../`)'
                 % (EXHAUSTIVE_KINDS,),
-                'sequence length <= 4; syntaxes %r x %d option rows (defaults, each single option value, seeded random rows '
+                'sequence length <= 4; syntaxes %r x %d option rows (defaults, each non-default option value alone, seeded random multi-option rows '
                 'over %s): lengths <= %d under all %d (syntax, row) pairs, length 4 under %s'
                 % (SYNTAXES, len(cover), [k for k, _ in OPTION_AXES], 3 if quick else 4, 4 * len(cover),
                    '8 pairs per sequence (window rotating over all pairs)' if quick else 'all pairs'),
                 'a case is (mention sequence, syntax, option row); the attribute list of the produced tag is compared with spec_attrs',
                 exhaustive=True)
-    run_parallel(c1, 'bounded.c03', 'check_seq', seq_cases(EXHAUSTIVE_KINDS, 4, SYNTAXES, cover, full_upto=3 if quick else 4), chunk=2000)
+    run_parallel_sorted(c1, 'bounded.c03', 'check_seq', seq_cases(EXHAUSTIVE_KINDS, 4, SYNTAXES, cover, full_upto=3 if quick else 4), chunk=2000)
     c1.done()
 
     c2 = Clause('attr-options-exhaustive', 'B',
@@ -357,19 +352,19 @@ def run(tier, seed):
     if quick:
         c2.bound += ' -- quick tier: every fifth option combination (%d)' % len(sets2)
         c2.exhaustive = False
-    run_parallel(c2, 'bounded.c03', 'check_seq', seq_cases(kinds2, 2, SYNTAXES, sets2), chunk=2000)
+    run_parallel_sorted(c2, 'bounded.c03', 'check_seq', seq_cases(kinds2, 2, SYNTAXES, sets2), chunk=2000)
     c2.done()
 
     c3 = Clause('attr-owner-element', 'B',
                 'div[A]>p[B]+em[C] with A, B, C each empty or one mention (exhaustive) plus seeded random abbreviations of 1-4 '
                 'elements (names incl. the implied one), 0-4 mentions each, repeat counts 1-2',
-                'exhaustive part: %d kinds, 3 elements, syntaxes %r x 3 option rows; random part: %d cases' % (
-                    len(kinds2) - 1, SYNTAXES, 6000 if quick else 60000),
+                'exhaustive part: %d kinds, 3 elements, syntaxes %r x %d option rows; random part: %d cases' % (
+                    len(kinds2) - 1, SYNTAXES, 3 if quick else 8, 6000 if quick else 60000),
                 'a case is (elements with their mentions, syntax, option row); every produced tag must carry exactly the '
                 'attributes written on it', exhaustive=False)
     k3 = EXHAUSTIVE_KINDS + EXTRA_KINDS
     cases3 = itertools.chain(multi_cases_exhaustive(k3, SYNTAXES, cover[:3] if quick else cover[:8]),
                              multi_cases_random(rng, 6000 if quick else 60000, k3, cover))
-    run_parallel(c3, 'bounded.c03', 'check_multi', cases3, chunk=2000)
+    run_parallel_sorted(c3, 'bounded.c03', 'check_multi', cases3, chunk=2000)
     c3.done()
     return [c1, c2, c3]
